@@ -68,14 +68,19 @@ inductive Arg where
   | tok (s : Str)
 deriving Repr, Inhabited
 
-/-- `eval_function`'s parse: FUNCTION groups, the shared tokeniser on the arguments, recursion on
+/-- `eval_function`'s `tokenize(args)`: no token for an empty argument text (`f()`; since the repair —
+    before it, one empty token, which `parse` resolved to the dataset itself), else the shared
+    parenthesis-aware tokeniser -/
+def tokenizeArgs (args : Str) : List Str := if args = [] then [] else tokTop ',' args 0 []
+
+/-- `eval_function`'s parse: FUNCTION groups, the tokeniser on the arguments, recursion on
     tokens that match FUNCTION again.  `fuel` bounds the nesting depth (the text gets shorter). -/
 def parseCall : Nat → Str → Arg
   | 0, s => .tok s
   | fuel + 1, s =>
     match functionMatch s with
     | none => .tok s
-    | some (name, args) => .call name ((tokTop ',' args 0 []).map (parseCall fuel))
+    | some (name, args) => .call name ((tokenizeArgs args).map (parseCall fuel))
 
 /-- the id string built by the client's `ServerFunction.__call__`:
     `name + "(" + ",".join(params) + ")"` with nested results contributing their own id -/
